@@ -96,10 +96,13 @@ type DDSeries struct {
 
 // OTLP logs
 type OVal struct {
-	Kind string `json:"kind"` // str | bool | int | none
-	S    Str    `json:"s,omitempty"`
-	B    bool   `json:"b,omitempty"`
-	I    int64  `json:"i,omitempty"`
+	Kind  string `json:"kind"`        // str | bool | int | none | double | bytes | arr | kv
+	S     Str    `json:"s,omitempty"` // str: the text; bytes: the bytes
+	B     bool   `json:"b,omitempty"`
+	I     int64  `json:"i,omitempty"`
+	F     uint64 `json:"f,omitempty"` // double: IEEE-754 bits
+	Items []OVal `json:"items,omitempty"`
+	KVs   []OKV  `json:"kvs,omitempty"`
 }
 type OKV struct {
 	K Str  `json:"k"`
@@ -109,6 +112,7 @@ type ORecord struct {
 	Attrs    []OKV  `json:"attrs"`
 	Severity Str    `json:"severity"`
 	Body     *Str   `json:"body,omitempty"`
+	BodyV    *OVal  `json:"body_value,omitempty"` // a body that is not a string value
 	Ts       uint64 `json:"ts"`
 }
 type OScope struct {
@@ -181,6 +185,9 @@ type Case struct {
 	// number of label buffers with a __ttl_days__ label in a non-final position that reach onEntries more than once
 	TTLMulti int    `json:"ttl_multi,omitempty"`
 	Coq      string `json:"coq,omitempty"`
+
+	// the reader the parser gets fails part-way: a truncated / corrupted compressed stream, a connection that breaks
+	Cut *Cut `json:"cut,omitempty"`
 
 	Damage   bool   `json:"damage,omitempty"` // Loki JSON: one edit is applied to the document tree before it is rendered
 	CoqJ     string `json:"coqj,omitempty"`   // Loki JSON / Datadog logs: the case with its document tree (jcase of coq/model/LokiJson.v, dcase of DatadogJson.v)
@@ -400,8 +407,32 @@ func run(c *Case) {
 		if hs != nil {
 			cache = hs.cache
 		}
+		var body io.Reader = bytes.NewReader(wire)
+		var rec *readRecorder
+		if c.Cut != nil {
+			var err error
+			defer func() {
+				if rec != nil {
+					c.Cut.ReadBytes = rec.n
+					if rec.err != nil {
+						c.Cut.ReadErr = rec.err.Error()
+					}
+					c.Cut.CleanPrefix = rec.err == nil && rec.sawEOF && rec.n < len(wire)
+				}
+			}()
+			if body, err = cutReader(wire, c.Cut); err == nil {
+				rec = &readRecorder{r: body}
+				body = rec
+			} else {
+				// the content-encoding reader refuses the stream before the parser sees a byte (WithOverallContextMiddleware returns the error)
+				c.Obs.Err, c.Obs.ErrMsg = "error", "content-encoding reader: "+err.Error()
+				c.Obs.T0 = time.Now().UnixNano()
+				c.Obs.T1 = c.Obs.T0
+				return
+			}
+		}
 		c.Obs.T0 = time.Now().UnixNano()
-		ch = parserOf(c.Proto)(ctx, bytes.NewReader(wire), cache)
+		ch = parserOf(c.Proto)(ctx, body, cache)
 		// The real consumer (controller.doParse -> doPush goroutines, with retries) still holds the responses it
 		// received while the parser goes on: every response is kept BY REFERENCE until the channel is closed and
 		// its columns are read only then. A digest taken at receive time tells whether a response already sent
@@ -505,6 +536,14 @@ func run(c *Case) {
 	if c.Proto == "ddcf" || c.Proto == "esbulk" {
 		c.CoqJ = fmt.Sprintf("WCase (%s)\n    %s %s %v", c.Coq, cstr(c.Body.NDCtx), ndCoqLines(c), !c.Damage)
 		c.TreeKind = "wcase"
+	}
+	if c.Cut != nil {
+		if c.TreeKind == "wcase" {
+			c.TreeKind = "wfcase"
+		} else {
+			c.CoqJ, c.TreeKind = c.Coq, "fcase"
+		}
+		return
 	}
 	if c.Proto == "ddmet" && c.doc != nil {
 		c.CoqJ = fmt.Sprintf("MCase (%s)\n    %s %v", c.Coq, c.doc.coq(), !c.Damage)
